@@ -35,6 +35,16 @@ Idempotent == \A x \in Inputs : \A q2 \in Orders(x[1]), d \in Orders(x[2]) :
 ExcludedNotCovered == \A x \in Inputs : \A q \in Orders(x[1]) :
     \A t \in {"AUX", "EBUILD", "MISC"} : \A e \in Parse(Generate(q, <<>>, FALSE))[t] :
         \A i \in DOMAIN e.name : e.name[i] \notin Excluded
+\* column order: every key order of a checksum mapping gives the same columns, and no column is lost
+Mappings == {<<[chf |-> <<115, 104, 97, 53, 49, 50>>, hex |-> "cc"], [chf |-> <<98, 108, 97, 107, 101, 50, 98>>, hex |-> "bb"],
+               [chf |-> <<109, 100, 53>>, hex |-> "dd"]>>,                                  \* sha512, blake2b, md5
+             <<[chf |-> <<115, 104, 97, 49>>, hex |-> "ee"]>>, <<>>}
+Perms(q) == {[k \in DOMAIN q |-> q[p[k]]] : p \in Orders(DOMAIN q)}
+ColumnsCanonical == \A q \in Mappings : \A q1, q2 \in Perms(q) :
+    /\ Columns(q1) = Columns(q2)
+    /\ {Columns(q1)[k] : k \in DOMAIN Columns(q1)} = {q[k] : k \in DOMAIN q}
+    /\ \A j, k \in DOMAIN Columns(q1) : j < k => LexLess(Columns(q1)[j].chf, Columns(q1)[k].chf)
+ASSUME ColumnsCanonical
 ASSUME NoneInvalid
 ASSUME ParseBack
 ASSUME OrderIndependent
